@@ -37,7 +37,10 @@ ShareLetters == TlsShare \cup AvailLetters
 NetLetters  == {"badstatus", "badheader", "hugeheader", "closebefore", "closeduring", "refused", "timeout"} \cup TlsLetters
                \cup AvailLetters
 BodyLetters == {"trunc", "badchunk"}
-OddLetters  == {"early", "empty", "big", "notjson", "jsonarr", "nothtml", "shorthdr", "nohdr"}
+\* "lst*": a well-formed 200 whose JSON body has, under the key `list` that later steps index, an EMPTY array / an array
+\* of one element / a string / null / an object (every other JSON-bodied letter: an array of two elements)
+ListLetters == {"lst0", "lst1", "lststr", "lstnull", "lstobj"}
+OddLetters  == {"early", "empty", "big", "notjson", "jsonarr", "nothtml", "shorthdr", "nohdr"} \cup ListLetters
 \* "hv": a well-formed 200 whose X-Tok header value has exactly `code` bytes (0 = empty / absent)
 ValueLens   == {0, 1, 2, 3, 5, 12}
 HvLetter(n) == [l |-> "hv", code |-> n]
@@ -48,21 +51,28 @@ HttpLetters == {StatusLetter(c) : c \in StatusCodes} \cup {Plain(l) : l \in NetL
 NetFails(x)   == x.l \in NetLetters                      \* no response at all: transport error
 BodyFails(x)  == x.l \in BodyLetters                     \* status and headers arrive, reading the body fails
 Code(x)       == IF x.l = "status" THEN x.code ELSE 200
-\* the body is a JSON object in which $.tok and $.list[0] exist ("jsonarr" is valid JSON, but an array)
+\* ("jsonarr" is valid JSON, but an array)
+\* the body is a JSON object in which $.tok exists; what is under $.list: "n" an array with elements, "empty" an empty
+\* array, "scalar" something that cannot be indexed (a string, null, an object)
+ListKind(x)   == CASE x.l = "lst0" -> "empty" [] x.l \in {"lststr", "lstnull", "lstobj"} -> "scalar" [] OTHER -> "n"
 BodyJSON(x)   == CASE x.l = "status" -> ~NoBody(x.code)
-                   [] x.l \in {"early", "big", "shorthdr", "nohdr", "hv"} -> TRUE
+                   [] x.l \in {"early", "big", "shorthdr", "nohdr", "hv"} \cup ListLetters -> TRUE
                    [] OTHER -> FALSE
 BodyHasTok(x) == BodyJSON(x) \/ x.l \in {"notjson", "jsonarr"}          \* the byte string "tok" occurs in the body
 HdrTok(x)     == CASE x.l \in {"shorthdr", "hv"} -> "short" [] x.l = "nohdr" -> "absent" [] OTHER -> "long"
 
 \* gRPC: the status the server returns / what happens to the call
-GrpcCodes   == 0..16
+\* codes.Code is the uint32 of the grpc-status trailer: the peer may send values outside the canonical 0..16
+GrpcCodes   == 0..16 \cup {17, 42, 2147483647}
 GrpcLetters == {[l |-> "code", code |-> c] : c \in GrpcCodes} \cup {Plain("gbig"), Plain("gtoobig"), Plain("gslow"), Plain("gkill")}
                \cup {Plain(l) : l \in AvailLetters}
 GrpcOK(x)   == (x.l = "code" /\ x.code = 0) \/ x.l = "gbig"
 
 \* ---------------------------------------------------------------- postprocessors of step "a" of a scenario gun
 Posts == {"none", "jsonpath", "header_substr", "xpath", "assert", "all"}
+\* response-derived LISTS flowing into a later step: a captures `items: $.list` (var/jsonpath), b's preprocessor maps
+\* `row: request.a.postprocessor.items[<index>]` with every index form
+IdxPosts == {"idx_last", "idx_next", "idx_rand", "idx_0", "idx_neg", "idx_big"}
 Has(p, q) == p = q \/ p = "all"
 
 \* ---------------------------------------------------------------- var/header modifiers on response-derived values
@@ -106,7 +116,8 @@ HttpOutcome(x) ==
 \* http/scenario step with postprocessors p: failed step = error + __EMPTY__ (+ the received status, see below)
 StepFails(x, p) ==
     \/ NetFails(x) \/ BodyFails(x)
-    \/ Has(p, "jsonpath") /\ ~BodyJSON(x)                    \* the body is not JSON: capture error
+    \/ Has(p, "jsonpath") /\ (~BodyJSON(x) \/ ListKind(x) # "n")   \* the body is not JSON / $.list[0] does not exist: capture error
+    \/ p \in IdxPosts /\ ~BodyJSON(x)                         \* $.list does not exist
     \/ Has(p, "assert") /\ (HdrTok(x) # "long" \/ ~BodyHasTok(x))   \* assert/response headers {X-Tok: "h"}, body ["tok"]
     \* var/header with |substr(5,10) on a short or absent value and var/xpath on anything never fail the step
 \* a failed step carries the status that was received, 0 if no response arrived at all
@@ -115,8 +126,11 @@ ScenStepOutcome(x, p) == IF NetFails(x) THEN Smp(0, TRUE, TRUE)
                          ELSE Smp(Code(x), FALSE, FALSE)
 
 \* scenario = << a (postprocessors p), b (none) >>; the same letter answers both steps
+\* with an index form in b's preprocessor: a list without elements (or something that is no list) fails step b BEFORE
+\* anything is sent - a failed step without a response (proto 0) -, it never fails the run
 HttpScenOutcome(x, p) ==
     IF StepFails(x, p) THEN <<ScenStepOutcome(x, p)>>
+    ELSE IF p \in IdxPosts /\ ListKind(x) # "n" THEN <<ScenStepOutcome(x, p), Smp(0, TRUE, TRUE)>>
     ELSE <<ScenStepOutcome(x, p), ScenStepOutcome(x, "none")>>
 
 GrpcOutcome(x) == IF GrpcOK(x) THEN Smp(200, FALSE, FALSE) ELSE Smp(GE400, FALSE, FALSE)
@@ -134,7 +148,7 @@ GrpcGuns == {"grpc", "grpc/scenario"}
 \* what a request gets when nothing is wrong
 OkLetter(gun) == IF gun \in GrpcGuns THEN [l |-> "code", code |-> 0] ELSE StatusLetter(200)
 LettersOf(gun) == IF gun \in {"grpc", "grpc/scenario"} THEN GrpcLetters ELSE HttpLetters
-PostsOf(gun)   == IF gun \in {"http/scenario", "http2/scenario"} THEN Posts ELSE {"none"}
+PostsOf(gun)   == IF gun = "http/scenario" THEN Posts \cup IdxPosts ELSE IF gun = "http2/scenario" THEN Posts ELSE {"none"}
 
 \* the only documented fatal condition: an http2 gun against a target that does not speak HTTP/2
 Fatal(gun, x) == gun \in {"http2", "http2/scenario"} /\ x.l = "nonh2"
@@ -170,6 +184,10 @@ Shot(i) == /\ pc[i] = "shoot" /\ poolErr = "none"
 \* "shoot panic", the pool fails and every instance is cancelled
 ShotPanic(i) == /\ RespCanPanic /\ pc[i] = "shoot" /\ poolErr = "none"
                 /\ \/ run.gun = "http/scenario" /\ Has(run.posts, "header_substr") /\ HdrTok(cur[i]) = "short"
+                   \* or: a symbolic index into a response-derived list that is empty
+                   \/ run.gun = "http/scenario" /\ run.posts \in IdxPosts /\ ListKind(cur[i]) = "empty"
+                   \* or: a table lookup with the peer's gRPC status code
+                   \/ run.gun \in {"grpc", "grpc/scenario"} /\ cur[i].l = "code" /\ cur[i].code > 16
                    \* or: every TLS alert of the peer mistaken for the documented "target has no HTTP/2"
                    \/ run.gun \in {"http2", "http2/scenario"} /\ cur[i].l \in TlsLetters
                 /\ poolErr' = "panic"
